@@ -286,7 +286,7 @@ func taskCase(d D) *Case {
 	g.W = map[string]int{"CreatePromise": 2, "CreatePromiseAndTask": 1, "CreateCallback": 2, "CompletePromise": 1, "ClaimTask": 8, "CompleteTask": 4, "HeartbeatTasks": 4, "ReadPromise": 1}
 	g.TimeoutDeltas = []int64{3000, 5000, 8000, 20000}
 	c := &Case{Cfg: GenConfig(d, 8), Prof: Profile{Bg: []string{"EnqueueTasks", "TimeoutTasks", "TimeoutPromises"}, Permute: true, Hold: 6, Cut: 2, SendFail: 8},
-		Gen: g, Steps: [2]int{5, 16}, MaxRq: 3, Dts: []int64{0, 0, 1, 500, 1000, 1000, -1, -1, -2, -3, 2000}, Settle: 4, Prime: 2}
+		Gen: g, Steps: [2]int{5, 16}, MaxRq: 3, Dts: []int64{0, 1, 500, 1000, 1000, 1000, -1, -1, -2, -3, 2000}, Settle: 6, Prime: 2, ExtraTicks: 4}
 	// short enqueue delay / signal timeout so that dispatch and lease sweeps happen inside the timeline
 	c.Cfg.SignalTimeout = time.Second
 	c.Cfg.TaskEnqueueDelay = time.Second * []time.Duration{1, 1, 2, 3}[d.Int(0, 3, "ted")]
